@@ -150,6 +150,16 @@ CLAIMED['C10'] = dict(
     note='Trusted: z3; Newton solve stubbed (same function of the model state in both runs); pickle of real floats and numeric equality are covered by the concrete replay only; T <= 3 hydraulic steps; one scenario network.',
     ref='DESIGN.md section 4, C10')
 
+CLAIMED['C13'] = dict(
+    engine='symx',
+    technique='symbolic execution of the real to_dict / from_dict / write_json / read_json on a kitchen-sink model whose ~200 numeric attributes are z3 proxies (JSON through a token shim, control text re-parsed by the real EPANET-style parsers on tokens); structural comparison plus SMT (z3) equality of every numeric leaf',
+    text='For the kitchen-sink model (every element type, vertices, several demands per junction, curves, patterns, sources, leaks, options, every simple-control form, rules with AND/OR/ELSE/PRIORITY) and ALL values of its '
+         'numeric attributes: to_dict(from_dict(to_dict(K))), the JSON round trip and from_dict(..., append=empty model) give a dictionary with the same keys, every numeric leaf equal and every other leaf identical '
+         '(tuples = lists, junction without demands = one zero demand).',
+    note='Trusted: z3; one model structure (four variants); clock times concrete (the parsers inspect their text); mostly a structural check - the solver matters for numbers that travel as text. '
+         'Known finding: Or(And(A,B),C) rule conditions change meaning.',
+    ref='DESIGN.md section 4, C13')
+
 NOT_APPLICABLE = {
     'C03': 'compares the numerical output of the closed EPANET shared library with a compiled Newton/SuperLU iteration; neither can be executed '
            'symbolically with the tools on this image and a contract standing in for EPANET would be the property itself (DESIGN.md section 5)',
